@@ -63,6 +63,8 @@ _np = None
 _sio = None
 _Tracker = None
 _skel = None
+_skel5 = None
+POSE5 = [[0.0, 0.0], [14.0, 9.0], [27.0, 3.0], [39.0, 16.0], [52.0, 6.0]]   # no zero-area sub-pose
 
 
 def setup():
@@ -75,6 +77,8 @@ def setup():
     warnings.filterwarnings("ignore", category=RuntimeWarning)  # nanmean([]) on the unpatched tree
     _np, _sio, _Tracker = np, sio, Tracker
     _skel = sio.Skeleton(["a", "b", "c"])
+    global _skel5
+    _skel5 = sio.Skeleton(["n0", "n1", "n2", "n3", "n4"])
 
 
 # --------------------------------------------------------------------------- implementation side
@@ -83,6 +87,18 @@ def make_instance(det):
     sz = det[4] if len(det) > 4 else 3 + (animal % 3)
     pose = det[5] if len(det) > 5 else "tri"
     nan = float("nan")
+    if pose.startswith("five"):
+        # 5-node pose; `five_hid`: nodes 2,3,4 are flagged visible=False but keep *stored* finite
+        # coordinates (det[6] = where that low-confidence garbage landed, e.g. on a neighbour) — for every
+        # consumer of a PredictedInstance (`.numpy()`) they are missing (seeded C10-r4m1)
+        pts = _np.array([[x + a, y + b] for a, b in POSE5], dtype=float)
+        inst = _sio.PredictedInstance.from_numpy(pts, _skel5, point_scores=_np.ones(5), score=float(score))
+        if pose == "five_hid":
+            sx, sy = det[6]
+            for k in (2, 3, 4):
+                inst.points["xy"][k] = [sx + POSE5[k][0], sy + POSE5[k][1]]
+                inst.points["visible"][k] = False
+        return inst
     if pose == "hline":      # collinear, identical y: zero-height box
         pts = _np.array([[x, y], [x + sz, y], [x + sz / 2, y]], dtype=float)
     elif pose == "vline":    # collinear, identical x: zero-width box
@@ -643,12 +659,26 @@ def has_allnan(case, upto=None):
     return any(len(d) > 5 and d[5] == "allnan" for dets in fr for d in dets)
 
 
-def gen_case(rng, cfg=None, max_animals=5, max_frames=12, degenerate=None, nan_scores=False):
+ULP_THRESHOLDS = [0.7, 0.3, 0.1, 0.55]      # non-dyadic: float32(thr) != thr (seeded C09-r4m1)
+
+
+def ulp_scores(thr):
+    import math as _m
+    return [thr, _m.nextafter(thr, 1.0), _m.nextafter(thr, 0.0), thr + 1e-9, thr - 1e-9,
+            _m.nextafter(_m.nextafter(thr, 1.0), 1.0), 0.9]
+
+
+def gen_case(rng, cfg=None, max_animals=5, max_frames=12, degenerate=None, nan_scores=False, ulp=False,
+             hidden=False):
     cfg = dict(cfg or rng.choice(all_configs()))
     if rng.random() < 0.06 and not nan_scores and degenerate is None and cfg["features"] == "keypoints":
         cfg["scoring_method"] = "euclidean_dist"       # off-diagonal pair (full poses only: NaN-free)
     cfg["window_size"] = rng.choice([1, 2, 3, 5, 1, 2, 3, 5, 4, 8])
     cfg["instance_score_threshold"] = rng.choice([0.0, 0.0, 0.5])
+    if ulp or (not nan_scores and degenerate is None and not hidden and rng.random() < 0.1):
+        # instance scores within one float64 ulp / 1e-9 of a non-dyadic threshold, both sides
+        ulp = True
+        cfg["instance_score_threshold"] = rng.choice(ULP_THRESHOLDS)
     K = rng.choice([1, 1, 2, 2, 3, 3, 4, 5, 6, 7][:max(1, 2 * max_animals - 2)] or [1])
     K = min(K, max_animals)
     F = rng.randint(2, max_frames)
@@ -656,7 +686,9 @@ def gen_case(rng, cfg=None, max_animals=5, max_frames=12, degenerate=None, nan_s
     # degenerate poses (collinear keypoints / one visible keypoint → zero-width or zero-height box),
     # only for bboxes+iou where the box geometry matters (seeded C10-r2m1)
     poses = None
-    if cfg["features"] == "bboxes" and (degenerate or (degenerate is None and rng.random() < 0.5)):
+    if hidden:
+        poses = ["five"] * K
+    elif cfg["features"] == "bboxes" and (degenerate or (degenerate is None and rng.random() < 0.5)):
         poses = [rng.choice(DEGENERATE + ["tri"]) for _ in range(K)]
         for a in range(min(K, 2)):
             poses[a] = rng.choice(DEGENERATE)
@@ -671,7 +703,8 @@ def gen_case(rng, cfg=None, max_animals=5, max_frames=12, degenerate=None, nan_s
         poses = [rng.choice(PARTIAL) for _ in range(K)]
     family = None
     if poses:
-        family = "nan_scores" if nan_scores else ("degenerate_pose" if cfg["features"] == "bboxes" else "partial_nan")
+        family = "nan_scores" if nan_scores else ("hidden_nodes" if hidden else (
+            "degenerate_pose" if cfg["features"] == "bboxes" else "partial_nan"))
     pos = []
     for a in range(K):
         if style == "lattice":
@@ -700,7 +733,15 @@ def gen_case(rng, cfg=None, max_animals=5, max_frames=12, degenerate=None, nan_s
             absent_run = gone[a] <= f < gone[a] + cfg["window_size"] + 1
             if f >= late[a] and not absent_run and rng.random() < p_present:
                 sc = rng.choice([0.9, 0.9, 0.75, 0.5, 0.25])
-                if poses is None:
+                if ulp:
+                    sc = rng.choice(ulp_scores(cfg["instance_score_threshold"]))
+                if hidden:
+                    if rng.random() < 0.4:
+                        o = rng.randrange(K)      # hidden nodes hold stale coordinates lying on another animal
+                        dets.append([pos[a][0], pos[a][1], sc, a, 0, "five_hid", [pos[o][0], pos[o][1]]])
+                    else:
+                        dets.append([pos[a][0], pos[a][1], sc, a, 0, "five"])
+                elif poses is None:
                     dets.append([pos[a][0], pos[a][1], sc, a])
                 else:
                     pose = poses[a]
@@ -1021,6 +1062,13 @@ def main(chk):
             cases.append(gen_case(chk.rng, cfg=cfg, max_frames=8, degenerate=True))
     for _ in range(chk.n(500, 6000)):
         cases.append(gen_case(chk.rng, max_animals=5 if not chk.thorough else 7))
+    # scores at threshold ± 1 ulp (seeded C09-r4m1) and hidden-but-stored nodes (seeded C10-r4m1)
+    for cfg in cfgs:
+        cases.append(gen_case(chk.rng, cfg=cfg, max_frames=6, ulp=True))
+        cases.append(gen_case(chk.rng, cfg=cfg, max_frames=6, max_animals=3, hidden=True))
+    for _ in range(chk.n(20, 400)):
+        cases.append(gen_case(chk.rng, ulp=True))
+        cases.append(gen_case(chk.rng, max_animals=3, hidden=True))
     # detections without any visible keypoint (NaN scores): every configuration once + random; oracle only
     for cfg in cfgs:
         cases.append(gen_case(chk.rng, cfg=cfg, max_frames=6, nan_scores=True))
